@@ -60,6 +60,21 @@ class ErrPayload(Exception):
         self.payload = payload
 
 
+class ErrOpaque(Exception):
+    """An exception that carries something no serializer can copy (a lock, a connection)."""
+
+    def __init__(self):
+        Exception.__init__(self)
+        import threading
+        self.lock = threading.Lock()
+        self.handle = _OpaqueHandle()
+
+
+class _OpaqueHandle(object):
+    def __getstate__(self):
+        raise RuntimeError('injected: this handle cannot be serialized')
+
+
 class Interrupt(BaseException):
     """Interrupt-style termination (KeyboardInterrupt / SystemExit stand-in)."""
 
